@@ -36,7 +36,7 @@ def diag_c20(spec, res, fails, mlog):
     ok, out, _, _ = V.coq_make(["Model/Tables.vo"], timeout=600)
     if not ok:
         return False
-    rc, out = V.sh(["coqc", "-R", V.COQ, "LA", "-w", "-notation-overridden,-deprecated", "-o", os.path.join(V.CASES, "DiagC20.vo"),
+    rc, out = V.sh(["coqc", "-R", V.COQ, "LA", "-w", "-notation-overridden,-deprecated", "-o", os.path.join(V.CASES, "C20.vo"),
                     os.path.join(V.COQ, "Diag", "C20.v")], timeout=600)
     found = False
     for m in re.finditer(r"D_(\w+) =\s*(.*?)\n\s*: ", out, re.S):
